@@ -72,6 +72,12 @@ impl SubCheck for FromSecs {
         let z = call("Utc.timestamp_opt", || Utc.timestamp_opt(s, ns))?;
         let fo = FixedOffset::east_opt(off).ok_or("harness: offset")?;
         let f = call("FixedOffset.timestamp_opt", || fo.timestamp_opt(s, ns))?;
+        // the panicking spellings of the zone-generic constructor (refused inputs sampled: a panic is slow)
+        if got.is_some() || (s as u64 ^ ns as u64).wrapping_mul(0x9e37_79b9_7f4a_7c15) >> 58 == 0 {
+            #[allow(deprecated)]
+            let pan = crate::guard::guard(|| Utc.timestamp(s, ns));
+            ensure_eq!(pan.ok(), got, "Utc.timestamp({s}, {ns}) vs from_timestamp (panic <-> None)");
+        }
         #[allow(deprecated)]
         let nv = call("NaiveDateTime::from_timestamp_opt", || chrono::NaiveDateTime::from_timestamp_opt(s, ns))?;
         ensure_eq!(nv, got.map(|d| d.naive_utc()), "NaiveDateTime::from_timestamp_opt({s}, {ns}) vs DateTime::from_timestamp");
@@ -158,6 +164,14 @@ impl SubCheck for FromUnit {
                 Some(call("FixedOffset.timestamp_nanos", || fo.timestamp_nanos(v))?),
             ),
         };
+        if u == 0 && (got.is_some() || (v as u64).wrapping_mul(0x9e37_79b9_7f4a_7c15) >> 58 == 0) {
+            #[allow(deprecated)]
+            let pan = crate::guard::guard(|| Utc.timestamp_millis(v));
+            ensure_eq!(pan.ok(), got, "Utc.timestamp_millis({v}) vs from_timestamp_millis (panic <-> None)");
+            #[allow(deprecated)]
+            let panf = crate::guard::guard(|| fo.timestamp_millis(v));
+            ensure_eq!(panf.ok().map(|d| d.naive_utc()), got.map(|d| d.naive_utc()), "FixedOffset.timestamp_millis({v}) vs from_timestamp_millis (panic <-> None)");
+        }
         #[allow(deprecated)]
         let nv = call("NaiveDateTime::from_timestamp_<unit>", || match u {
             0 => chrono::NaiveDateTime::from_timestamp_millis(v),
@@ -272,6 +286,11 @@ impl SubCheck for Reverse {
             obs.nt_if(t.div_euclid(NS).abs() < 86_400, "within_a_day_of_the_epoch");
             let to2: SystemTime = call("SystemTime::from", || SystemTime::from(dt.with_timezone(&fo)))?;
             ensure_eq!(to2, st, "SystemTime::from(DateTime<FixedOffset>)");
+            // the Local forms of both conversions keep the instant whatever the process zone is
+            let lf: DateTime<chrono::Local> = call("From<SystemTime> for DateTime<Local>", || DateTime::<chrono::Local>::from(st))?;
+            ensure_eq!(lf.naive_utc(), n, "DateTime::<Local>::from(SystemTime) for instant {t}");
+            let to3: SystemTime = call("SystemTime::from", || SystemTime::from(lf))?;
+            ensure_eq!(to3, st, "SystemTime::from(DateTime<Local>)");
         } else {
             obs.label("systemtime_unrepresentable");
         }
